@@ -8,7 +8,7 @@ reported text)."""
 import itertools
 import random
 
-from .. import sut
+from .. import monitors, sut
 from ..gen import layout as lay
 from ..ref import lex as rlex
 
@@ -79,14 +79,21 @@ class Trace:
         self.lookups.append(name)
         return name in TYPE_NAMES
 
-    def run(self, text, filename, limit):
+    def run(self, text, filename, limit, steps=None):
         del self.errors[:], self.braces[:], self.lookups[:]
         self.lx.input(text, filename)
         out = []
         calls = 0
+        if steps is not None:
+            # bounded work for the whole string: a token() call that loops inside the lexer is stopped by the
+            # step monitor (deterministic), not by a wall-clock timeout
+            steps.begin(3000 + 300 * len(text))
         while True:
             calls += 1
-            t = self.lx.token()
+            try:
+                t = self.lx.token()
+            except monitors.StepBudgetExceeded:
+                return out, calls, False
             if t is None:
                 break
             out.append((t.type, t.value, t.lineno, t.column, self.lx.filename))
@@ -270,13 +277,16 @@ def run_shard(spec):
     else:
         A = ALPHA20
         idx = 0
+        steps = monitors.StepMonitor()
+        steps.start()
         for L in range(1, spec["maxlen"] + 1):
             for tup in itertools.product(A, repeat=L):
                 idx += 1
                 if idx % spec["nshards"] != spec["shard"]:
                     continue
                 s = "".join(tup)
-                obs, calls, finished = tr.run(s, "p.c", len(s) + 2)
+                obs, calls, finished = tr.run(s, "p.c", len(s) + 2, steps)
+                steps.end()
                 cnt["strings"] += 1
                 cnt["token_calls"] += calls
                 cnt["error_reports"] += len(tr.errors)
@@ -301,6 +311,7 @@ def run_shard(spec):
                 if prob:
                     add({"kind": "input-not-conserved", "sig": prob.split(" ")[0] + prob.split(" ")[-1][:12], "case": case,
                          "detail": {"problem": prob, "tokens": obs[:6], "errors": tr.errors[:4]}})
+        steps.stop()
         res["samples"].append({"progress_string": "a'\\\n#"})
     res["hashes"] = sorted(hs)
     return res
